@@ -182,11 +182,12 @@ def build_world(rng) -> World:
     cfg["repair_delay"] = rng.choice([[0], [1], [2]])
     cfg["sources"] = [
         {"component": "compA", "source": "sA", "repairable": True, "persistent": True, "active": 1, "inactive": 0},
+        # inactive_duration 0 is the value the loader itself fills in when the column is absent
         {"component": "compA", "source": "sD", "repairable": False, "persistent": False,
-         "active": rng.randint(1, 2), "inactive": rng.randint(1, 3)},
+         "active": rng.choice([1, 1, 2]), "inactive": rng.choice([0, 0, 1, 3])},
         {"component": "compB", "source": "sB", "repairable": False, "persistent": True, "active": 1, "inactive": 0},
         {"component": "compB", "source": "sC", "repairable": True, "persistent": False,
-         "active": rng.randint(1, 3), "inactive": rng.randint(1, 2)},
+         "active": rng.choice([1, 2, 3]), "inactive": rng.choice([0, 1, 2])},
     ]
     cfg["methods"] = _method_variants(rng, cfg["methods"])
     cfg["programs"] = [{"name": "P_none", "methods": []}, {"name": "P_all", "methods": list(cfg["methods"])}]
@@ -252,6 +253,18 @@ def build_world(rng) -> World:
         raise
 
 
+def emitting_pattern(start_day, adur, idur, d):
+    """on/off cycle of an intermittent emission from (active_duration, inactive_duration, first active day):
+    emitting from the day it becomes active for `adur` days, then a pause of `idur` days - at least ONE day: the
+    daily bookkeeping (IntermittencyMixin.update; Lean `Emission.toggle`) switches the emission off at the end of
+    an emitting period and back on only with a later update, so inactive_duration 0 still gives one day on
+    which nothing is emitted (the emitted volume does not grow that day)"""
+    d0 = max(start_day, 0)
+    if d < d0:
+        return False
+    return ((d - d0) % (adur + max(idur, 1))) < adur
+
+
 def coverage_signature(infra):
     """(site, group, component, source, spatial probabilities, temporal probabilities) of every source"""
     out = []
@@ -293,6 +306,7 @@ class Scene:
         self.start = world.start
         self.day = None
         self.round_trips = 0
+        self.booked = {}         # (model id, day) -> (emitting days booked that day, status before, status after)
         self.spatial_draws = {}  # (model id, method) -> number of spatial rolls drawn so far
         self.stored = {}         # (model id, method) -> first stored outcome
         rs = _RateSource()
@@ -341,10 +355,7 @@ class Scene:
         start, _, persistent, adur, idur = self.em_cfg[n]
         if persistent:
             return True
-        d0 = max(start, 0)
-        if d < d0:
-            return False
-        return ((d - d0) % (adur + idur)) < adur
+        return emitting_pattern(start, adur, idur, d)
 
     def _walk(self, infra):
         out = []
@@ -377,7 +388,12 @@ class Scene:
         self.round_trips += 1
 
     def day_end(self):
+        """the daily update; what each emission BOOKS for the day is kept: +1 emitting day or +0 (emitted volume
+        of the day = that x rate x 86.4), and whether it is still active afterwards"""
+        before = {n: (em.get_days_emitting(), em.get_status()) for n, em in self.em_obj.items()}
         self.infra.update_emissions_state(EmisInfo())
+        for n, em in self.em_obj.items():
+            self.booked[(n, self.day)] = (em.get_days_emitting() - before[n][0], before[n][1], em.get_status())
 
     def layout(self, si):
         site = self.sites[si]
